@@ -1235,10 +1235,9 @@ class CryptContext:
 
         # convert numbers to strings
         elif isinstance(value, numeric_types):
-            if isinstance(value, float) and key[2] == "vary_rounds":
-                value = (f"{value:.2f}").rstrip("0") if value else "0"
-            else:
-                value = str(value)
+            # NOTE: repr() gives the shortest string that reads back as the same float
+            #       (rounding vary_rounds to 2 places turned "12.5%" into 0.12)
+            value = repr(value) if isinstance(value, float) else str(value)
 
         assert isinstance(value, str), f"expected string for key: {key!r} {value!r}"
 
